@@ -78,9 +78,13 @@ def _cases(draw, ctx):
             src = draw(st.sampled_from(present))
             body = [S.track_line(it) for it in spec["tracks"][src]] + ["7 = N 3 0"]
         elif kind == "garbage":
+            # (rendered with the two-blank body indent: '}' becomes '  }', which is just an unparsable
+            # body line, not a section end)
             body = draw(st.lists(st.sampled_from(["garbage", "0 = B 120000", "0 = TS 4", "{", "",
-                                                  "0 = N 9 0", "Resolution = 7", '0 = E "x"']),
-                                 max_size=5))
+                                                  "0 = N 9 0", "Resolution = 7", '0 = E "x"', "}", "} ",
+                                                  "}\t", "[EasySingle]", "[Events]", " {", "[Song]",
+                                                  "0 = N 0 0", "5 = N 5 0"]),
+                                 max_size=7))
         elif kind == "invalid_forced_first":
             body = ["5 = N 0 0", "5 = N 5 0", "9 = N 1 0"]
         elif kind == "invalid_unsorted":
